@@ -327,6 +327,11 @@ def gen_cases(ctx: Check):
         cfg = _cfg(d)
         tag_extra = "f5-region" if (d["f5"] and not f5_on) else None
         cases.append(Case(cfg, directed(d), d, tag_extra or "directed"))
+        if d["f5"] and f5_on:
+            # failures and divergences of cases whose descriptor matches the open finding are suppressed; keep the
+            # model-vs-implementation agreement in that region checked through an unmonitored copy of the directed case
+            d2 = dict(d, f5=False, f5_region_agreement_only=True)
+            cases.append(Case(cfg, directed(d) + gen_ops(rng, d, 40, 0.8, 0.5, 0.8), d2, "f5-region"))
         regs = rng.sample(REGIMES, ctx.pick(3, 5))
         for pq, ps, pw in regs:
             cases.append(Case(cfg, gen_ops(rng, d, cyc, pq, ps, pw, hot=rng.random() < 0.7), d, tag_extra or "random"))
